@@ -70,53 +70,69 @@ def phase(name):
 
 INVARIANTS = ["TypeOK", "HistoryIndependent", "NoLeftover", "SameInterface", "NetsWellFormed"]
 BUGS = {"RTL": ["wr_typo", "reads_kept", "signals_kept", "boundary_connection_lost",
-                "same_child_connection_lost", "boundary_reads_lost", "spawned_slice_lost"],
-        "CL": ["no_l4_uncollect", "ifc_kept", "boundary_connection_lost"]}
-BASE = {"RTL": "Comb", "CL": "QByp"}
+                "same_child_connection_lost", "boundary_reads_lost", "spawned_slice_lost", "nested_kept"],
+        "PB": ["reads_kept", "boundary_reads_lost", "spawned_slice_lost", "nested_kept", "ancestor_reads_lost",
+               "ff_write_lost"],
+        "CL": ["no_l4_uncollect", "ifc_kept", "boundary_connection_lost", "nested_kept"]}
+FAMILIES = ("RTL", "PB", "CL")
 NCYC = 12
 
 
 def scenarios(tier, famname):
+    """inits: initial configurations; positions / palette: where and by what a step replaces"""
     fam = J.family(famname)
-    allp, allc = list(fam.positions), list(fam.palette)
+    allp = list(fam.positions)
+    allc = list(fam.classes)
+    leafc = [c for c in fam.palof[fam.leaves[0]]]
+    hostc = [c for p in fam.hosts for c in fam.palof[p]]
+    uni = [fam.uniform(c) for c in leafc] + [fam.uniform(None, c) for c in hostc[1:]]
+    base = [fam.uniform()]
+    quick = tier == "quick"
     if famname == "RTL":
-        sub_p, sub_c = ["c[0]", "d[0][1]", "m.g"], ["Reg", "Cons", "Nest", "Slc"]
-        if tier == "quick":
-            sub_c = ["Cons", "Nest", "Slc"]
-            return [dict(name="uniform-inits", inits=allc, positions=allp, palette=allc, kinds="both", maxlen=1),
-                    dict(name="all-len2", inits=["Comb"], positions=allp, palette=allc, kinds="alt", maxlen=2),
-                    dict(name="sub-len3", inits=["Comb"], positions=sub_p, palette=sub_c, kinds="alt", maxlen=3)]
-        return [dict(name="uniform-inits", inits=allc, positions=allp, palette=allc, kinds="alt", maxlen=2),
-                dict(name="all-len2", inits=["Comb"], positions=allp, palette=allc, kinds="both", maxlen=2),
-                dict(name="all-len3", inits=["Comb"], positions=allp, palette=allc, kinds="alt", maxlen=3),
-                dict(name="sub-len4", inits=["Comb"], positions=sub_p, palette=sub_c, kinds="alt", maxlen=4)]
-    sub_p, sub_c = ["q", "qs[1]", "w.foo"], ["QPipe", "QCnt", "QNest", "QByp"]
-    if tier == "quick":
-        sub_c = ["QCnt", "QNest", "QByp"]
-        return [dict(name="uniform-inits", inits=allc, positions=allp, palette=allc, kinds="both", maxlen=1),
-                dict(name="all-len2", inits=["QByp"], positions=allp, palette=allc, kinds="both", maxlen=2),
-                dict(name="sub-len3", inits=["QByp"], positions=sub_p, palette=sub_c, kinds="alt", maxlen=3)]
-    return [dict(name="uniform-inits", inits=allc, positions=allp, palette=allc, kinds="both", maxlen=2),
-            dict(name="all-len3", inits=["QByp"], positions=allp, palette=allc, kinds="both", maxlen=3),
-            dict(name="sub-len4", inits=["QByp"], positions=sub_p, palette=sub_c, kinds="alt", maxlen=4)]
+        sub_p = ["c[0]", "d[0][1]", "m.g", "m"]
+        sub_c = ["Cons", "Nest", "Mix", "MidB"] if quick else ["Reg", "Cons", "Nest", "Slc", "Mix", "Mid", "MidB"]
+        pair_p = ["a", "c[0]", "c[1]", "d[1][0]", "m", "m.g"]
+        pair_c = ["Reg", "Nest", "Mix", "RegO", "Slc", "Hold", "Mid", "MidB"]
+    elif famname == "PB":
+        sub_p = ["c", "l[1]", "m", "m.g"]
+        sub_c = ["PReg", "PMix", "PBMidB"] if quick else allc
+        pair_p, pair_c = allp, allc
+    else:
+        sub_p = ["q", "qs[1]", "w", "w.foo"]
+        sub_c = ["QCnt", "QNest", "QReg", "CLMidB"] if quick else ["QPipe", "QCnt", "QNest", "QReg", "QByp", "CLMid", "CLMidB"]
+        pair_p, pair_c = allp, allc
+    nest_p = fam.hosts + fam.nested
+    # replace_component on a hosting position after its nested position has changed (the API falls back
+    # to the constructor arguments of the removed host) needs both calls at every step
+    nested = dict(name="nested-len2", inits=base, positions=nest_p, palette=allc, kinds="both", maxlen=2)
+    if quick:
+        return [nested, dict(name="uniform-inits", inits=uni, positions=allp, palette=allc, kinds="both", maxlen=1),
+                dict(name="pairs-len2", inits=base, positions=pair_p, palette=pair_c, kinds="alt", maxlen=2),
+                dict(name="sub-len3", inits=base, positions=sub_p, palette=sub_c, kinds="alt", maxlen=3)]
+    nested = dict(nested, name="nested-len3", maxlen=3,
+                  palette=allc if famname != "RTL" else ["Reg", "Nest", "Mix", "Cons", "Hold", "Mid", "MidB"])
+    return [nested, dict(name="uniform-inits", inits=uni, positions=allp, palette=allc, kinds="alt", maxlen=2),
+            dict(name="all-len2", inits=base, positions=allp, palette=allc, kinds="both", maxlen=2),
+            dict(name="pairs-len3", inits=base, positions=pair_p, palette=pair_c, kinds="alt", maxlen=3),
+            dict(name="sub-len4", inits=base, positions=sub_p, palette=sub_c, kinds="alt", maxlen=4)]
 
 
 # --------------------------------------------------------------------------------------
 # TLC on Replace.tla
 # --------------------------------------------------------------------------------------
 
-def model_input(fam, model, sc):
+def model_input(fam, model, scs, bugs=(), mutant_init=None):
     m = dict(model)
     m["allpos"] = list(fam.positions)
-    m["positions"] = list(sc["positions"])
-    m["palette"] = list(sc["palette"])
-    m["inits"] = [{p: c for p in fam.positions} for c in sc["inits"]]
+    m["scenarios"] = [dict(inits=[dict(g) for g in sc["inits"]], positions=list(sc["positions"]),
+                           palette=list(sc["palette"]), kinds=sc["kinds"], maxlen=sc["maxlen"]) for sc in scs]
+    m["bugs"] = list(bugs)
+    m["mutant_init"] = dict(mutant_init or fam.uniform())
     return m
 
 
-def cfg_text(sc, bug="none", hist_only=False, invariants=True):
-    t = ('SPECIFICATION Spec\nCONSTANTS MaxLen = %d\n Bug = "%s"\n HistOnly = %s\n Kinds = "%s"\n'
-         % (sc["maxlen"], bug, "TRUE" if hist_only else "FALSE", sc["kinds"]))
+def cfg_text(bug="none", hist_only=False, invariants=True):
+    t = ('SPECIFICATION Spec\nCONSTANTS Bug = "%s"\n HistOnly = %s\n' % (bug, "TRUE" if hist_only else "FALSE"))
     if invariants:
         t += "".join("INVARIANT %s\n" % i for i in INVARIANTS)
     return t + "CHECK_DEADLOCK FALSE\n"
@@ -129,58 +145,71 @@ def _write_input(d, name, obj):
     return p
 
 
-def model_check(res, fam, model, sc, scratch):
-    inp = _write_input(scratch, "model_%s_%s.json" % (fam.name, sc["name"]), model_input(fam, model, sc))
-    r = tlc.run("Replace", cfg_text=cfg_text(sc), env={"VERIF_INPUT": inp}, coverage=True, timeout=3600,
+def model_check(res, fam, model, scs, scratch):
+    """one TLC run: the invariants of Replace.tla over every scenario, and (MutantReport) every
+    model-level mutant must break HistoryIndependent / NoLeftover within two steps"""
+    bugs = BUGS[fam.name]
+    inp = _write_input(scratch, "model_%s.json" % fam.name, model_input(fam, model, scs, bugs))
+    r = tlc.run("Replace", cfg_text=cfg_text(), env={"VERIF_INPUT": inp}, coverage=True, timeout=3600,
                 workers=max(2, (os.cpu_count() or 4) // 4))
     res.add_tlc(r)
+    names = "/".join(sc["name"] for sc in scs)
     if r.violated:
-        raise MachineryError("Replace.tla violates %s in scenario %s/%s (the specification itself is not "
-                             "history independent)\n%s" % (r.violated, fam.name, sc["name"], r.out[-2500:]))
+        raise MachineryError("Replace.tla violates %s in %s (%s) (the specification itself is not "
+                             "history independent)\n%s" % (r.violated, fam.name, names, r.out[-2500:]))
     if not r.ok:
-        raise MachineryError("TLC failed on Replace (%s/%s): %s\n%s" % (fam.name, sc["name"], r.errors, r.out[-2500:]))
-    need = ["Replace"] + (["ReplaceWithObj"] if sc["kinds"] == "both" or sc["maxlen"] >= 2 else [])
-    for act in need:
+        raise MachineryError("TLC failed on Replace (%s): %s\n%s" % (fam.name, r.errors, r.out[-2500:]))
+    for act in ("Replace", "ReplaceWithObj"):
         if r.coverage.get(act, (0, 0))[1] == 0:
-            raise MachineryError("action %s never taken in Replace (%s/%s): vacuous" % (act, fam.name, sc["name"]))
+            raise MachineryError("action %s never taken in Replace (%s): vacuous" % (act, fam.name))
+    caught = {p[2]: p[3] for p in r.prints if len(p) == 4 and p[0] == "V" and p[1] == "mutant"}
+    for bug in bugs:
+        if caught.get(bug) is not True:
+            raise MachineryError("model-level mutant %s of Replace.tla (%s) breaks no invariant within two steps "
+                                 "(MutantReport: %s)" % (bug, fam.name, caught))
+        res.count("model_mutants_rejected")
     return r
 
 
 def model_canaries(res, fam, model, scratch):
-    """every model-level mutant must violate an invariant (the invariants bite)"""
-    allp, allc = list(fam.positions), list(fam.palette)
-    sc = dict(name="canary", inits=[BASE[fam.name]], positions=allp, palette=allc, kinds="alt", maxlen=2)
-    inp = _write_input(scratch, "model_%s_canary.json" % fam.name, model_input(fam, model, sc))
+    """thorough tier: every model-level mutant (constant Bug), run as a model of its own, must make TLC
+    report a violated invariant"""
+    allp, allc = list(fam.positions), list(fam.classes)
+    sc = dict(name="canary", inits=[fam.uniform()], positions=allp, palette=allc, kinds="alt", maxlen=2)
+    inp = _write_input(scratch, "model_%s_canary.json" % fam.name, model_input(fam, model, [sc]))
+    nsc = dict(name="canary-nested", inits=[fam.uniform()], positions=fam.hosts + fam.nested, palette=allc,
+               kinds="both", maxlen=2)
+    ninp = _write_input(scratch, "model_%s_canary_nested.json" % fam.name, model_input(fam, model, [nsc]))
 
     def one(bug):
-        return bug, tlc.run("Replace", cfg_text=cfg_text(sc, bug=bug), env={"VERIF_INPUT": inp},
-                            workers=2, timeout=3600)
+        return bug, tlc.run("Replace", cfg_text=cfg_text(bug=bug), workers=2, timeout=3600,
+                            env={"VERIF_INPUT": ninp if bug == "nested_kept" else inp})
     with ThreadPoolExecutor(max_workers=4) as ex:
         for bug, r in ex.map(one, BUGS[fam.name]):
             if not (set(r.violated) & {"HistoryIndependent", "NoLeftover"}):
                 raise MachineryError("model-level mutant %s of Replace.tla (%s) violates no invariant: %s %s\n%s"
                                      % (bug, fam.name, r.violated, r.errors, r.out[-1500:]))
-            res.count("model_mutants_rejected")
+            res.count("model_mutant_runs_rejected")
 
 
-def histories_of(res, fam, model, sc, scratch):
-    """spec -> code: every path of the dumped history graph"""
-    inp = _write_input(scratch, "hist_%s_%s.json" % (fam.name, sc["name"]), model_input(fam, model, sc))
-    r, states, init, edges = tlc.dump_graph("Replace", cfg_text=cfg_text(sc, hist_only=True, invariants=False),
+def histories_of(res, fam, model, scs, scratch):
+    """spec -> code: every path of the dumped history graph, per scenario"""
+    inp = _write_input(scratch, "hist_%s.json" % fam.name, model_input(fam, model, scs))
+    r, states, init, edges = tlc.dump_graph("Replace", cfg_text=cfg_text(hist_only=True, invariants=False),
                                             env={"VERIF_INPUT": inp})
     res.add_tlc(r)
     if not r.ok:
-        raise MachineryError("TLC failed dumping the history graph (%s/%s): %s\n%s"
-                             % (fam.name, sc["name"], r.errors, r.out[-2000:]))
+        raise MachineryError("TLC failed dumping the history graph (%s): %s\n%s" % (fam.name, r.errors, r.out[-2000:]))
     out = collections.defaultdict(set)
     for (s, d, name, args) in edges:
         if name not in ("Replace", "ReplaceWithObj") or len(args) != 2:
             raise MachineryError("unexpected edge label %s%s in the history graph" % (name, args))
         out[s].add((d, name, str(args[0]), str(args[1])))
-    hist = []
+    hists = [[] for _ in scs]
     for s0 in sorted(init):
         st = states[s0]
         icfg = {str(k): str(v) for k, v in st["cfg"].items()}
+        hist = hists[int(st["sc"]) - 1]
         stack = [(s0, [])]
         while stack:
             s, path = stack.pop()
@@ -188,14 +217,15 @@ def histories_of(res, fam, model, sc, scratch):
                 hist.append((icfg, path))
             for (d, name, pos, cls) in sorted(out.get(s, ())):
                 stack.append((d, path + [(name, pos, cls)]))
-    exp = sum(_count_paths(sc, k) for k in range(1, sc["maxlen"] + 1)) * len(sc["inits"])
-    if len(hist) != exp:
-        raise MachineryError("history graph of %s/%s has %d paths, expected %d" % (fam.name, sc["name"], len(hist), exp))
-    return hist
+    for sc, hist in zip(scs, hists):
+        exp = sum(_count_paths(fam, sc, k) for k in range(1, sc["maxlen"] + 1)) * len(sc["inits"])
+        if len(hist) != exp:
+            raise MachineryError("history graph of %s/%s has %d paths, expected %d" % (fam.name, sc["name"], len(hist), exp))
+    return hists
 
 
-def _count_paths(sc, k):
-    b = len(sc["positions"]) * len(sc["palette"])
+def _count_paths(fam, sc, k):
+    b = len(fam.moves(sc["positions"], set(sc["palette"])))
     return (b * (2 if sc["kinds"] == "both" else 1)) ** k
 
 
@@ -217,10 +247,7 @@ class Replayer:
     def run(self, jobs, chunk=40):
         """jobs: dicts(id, fam, init, steps, check, sim) -> {id: record}"""
         def final(j):
-            g = dict(j["init"])
-            for (_, p, c) in j["steps"]:
-                g[p] = c
-            return (j["fam"], J.cfg_key(g))
+            return (j["fam"], J.cfg_key(J.family(j["fam"]).final_cfg(j["init"], j["steps"])))
         jobs = sorted(jobs, key=final)                    # neighbours share the fresh-build oracle
         chunks = [(jobs[i:i + chunk], self.inputs) for i in range(0, len(jobs), chunk)]
         recs = {}
@@ -241,9 +268,8 @@ def _payload(fam, model, table, traces):
     """traces refer to observation hashes; intern them into 1-based indices of this payload"""
     pay = dict(model)
     pay["allpos"] = list(fam.positions)
-    pay["positions"] = list(fam.positions)
-    pay["palette"] = list(fam.palette)
-    pay["inits"] = []
+    pay["scenarios"] = []
+    pay["bugs"] = []
     pay["ofields"] = list(J.OFIELDS)
     tix, gix, tab, gtab = {}, {}, [], []
 
@@ -288,9 +314,9 @@ def validate(res, fam, model, table, traces, batch=None):
     the failing step"""
     if not traces:
         return []
-    if batch is None:       # one round of TLC processes when that keeps a batch between 60 and 400 traces
-        ncpu = os.cpu_count() or 4
-        batch = max(60, min(400, (len(traces) + ncpu - 1) // ncpu))
+    if batch is None:       # a JVM start costs several CPU seconds: a few big chunks per family (the families
+        ncpu = max(2, (os.cpu_count() or 4) // len(FAMILIES))      # validate side by side)
+        batch = max(60, min(1500, (len(traces) + ncpu - 1) // ncpu))
     chunks = [traces[i:i + batch] for i in range(0, len(traces), batch)]
 
     def one(ch):
@@ -443,19 +469,24 @@ class _Locked:
 _PYMTL = threading.Lock()
 
 
+def _inputs():
+    return {"RTL": J.rtl_inputs(NCYC, rng("c15-inputs")), "PB": J.rtl_inputs(NCYC, rng("c15-inputs-pb")),
+            "CL": [0] * NCYC}
+
+
 def run(res, tier):
     from common import scratch
     quick = tier == "quick"
-    inputs = {"RTL": J.rtl_inputs(NCYC, rng("c15-inputs")), "CL": [0] * NCYC}
+    inputs = _inputs()
     F = Findings()
-    for f in ("RTL", "CL"):
+    for f in FAMILIES:
         J.family(f)
     rp = Replayer(inputs)                    # fork the workers before any thread exists
     lres = _Locked(res)
     try:
         with scratch() as sd:
-            with ThreadPoolExecutor(max_workers=2) as ex:
-                futs = [ex.submit(_family, lres, tier, f, rp, F, rng("c15-" + f), sd) for f in ("RTL", "CL")]
+            with ThreadPoolExecutor(max_workers=len(FAMILIES)) as ex:
+                futs = [ex.submit(_family, lres, tier, f, rp, F, rng("c15-" + f), sd) for f in FAMILIES]
                 for fu in futs:
                     fu.result()
             with phase("canaries"):
@@ -480,14 +511,14 @@ def _family(res, tier, famname, rp, F, R, sd):
     quick = tier == "quick"
     fam = J.family(famname)
     ph = lambda n: phase("%s:%s" % (famname, n))  # noqa: E731
-    extra = [{p: R.choice(list(fam.palette)) for p in fam.positions} for _ in range(6 if quick else 40)]
+    extra = [fam.random_cfg(R) for _ in range(6 if quick else 40)]
     with ph("extract-model"), _PYMTL:
         try:
             model = J.extract_model(fam, extra)
         except J.NotCompositional as e:
             raise MachineryError("designs built from scratch are not compositional (%s): %s" % (famname, e))
         # ---- fresh designs against the derived views of the specification (and canary base)
-        fresh_cfgs = [{p: c for p in fam.positions} for c in fam.palette] + extra
+        fresh_cfgs = [fam.uniform(c, c) for c in fam.classes] + extra
         ftr = []
         for g in fresh_cfgs:
             P, _ = J.project(fam.build(g))
@@ -498,16 +529,16 @@ def _family(res, tier, famname, rp, F, R, sd):
     # ---- TLC on Replace.tla: model-level mutants, invariants and history graph of every scenario,
     #      side by side (small models; the JVM start dominates)
     scs = scenarios(tier, famname)
-    with ph("tlc-model"), ThreadPoolExecutor(max_workers=2 * len(scs) + 2) as ex:
-        fc = ex.submit(model_canaries, res, fam, model, sd)
+    with ph("tlc-model"), ThreadPoolExecutor(max_workers=4) as ex:
+        fc = ex.submit(model_canaries, res, fam, model, sd) if not quick else None
         fv = ex.submit(validate, res, fam, model, rp.table, ftr)
-        fm = [ex.submit(model_check, res, fam, model, sc, sd) for sc in scs]
-        fh = [ex.submit(histories_of, res, fam, model, sc, sd) for sc in scs]
-        fc.result()
+        fm = ex.submit(model_check, res, fam, model, scs, sd)
+        fh = ex.submit(histories_of, res, fam, model, scs, sd)
+        if fc is not None:
+            fc.result()
         vs = fv.result()
-        for f in fm:
-            f.result()
-        hss = [f.result() for f in fh]
+        fm.result()
+        hss = fh.result()
     for t, (err, pos, cl) in zip(ftr, vs):
         if err != "ok":
             raise MachineryError("a freshly elaborated %s design %s differs from the derived views of Replace.tla: %s %s"
@@ -520,7 +551,8 @@ def _family(res, tier, famname, rp, F, R, sd):
     for sc, hs in zip(scs, hss):
         res.note("histories_%s_%s" % (famname, sc["name"]), len(hs))
         for (icfg, path) in hs:
-            jobs.append(dict(id=nid, fam=famname, init=icfg, steps=path, check="last", sim=True))
+            # every other history hands replace_component_with_obj objects built before the design
+            jobs.append(dict(id=nid, fam=famname, init=icfg, steps=path, check="last", sim=True, pre=nid % 2 == 1))
             nid += 1
     seen = {}
     for j in jobs:                                # scenarios overlap: replay a history once
@@ -553,10 +585,10 @@ def _family(res, tier, famname, rp, F, R, sd):
     n, ln = (24, 8) if quick else (300, 14)
     jobs = []
     for i in range(n):
-        init = {p: R.choice(list(fam.palette)) for p in fam.positions}
-        steps = [(R.choice(["Replace", "ReplaceWithObj"]), R.choice(fam.positions), R.choice(list(fam.palette)))
-                 for _ in range(ln)]
-        jobs.append(dict(id=("long", i), fam=famname, init=init, steps=steps, check="all", sim=True))
+        init = fam.random_cfg(R)
+        mv = fam.moves()
+        steps = [(R.choice(["Replace", "ReplaceWithObj"]),) + R.choice(mv) for _ in range(ln)]
+        jobs.append(dict(id=("long", i), fam=famname, init=init, steps=steps, check="all", sim=True, pre=i % 2 == 1))
     with ph("random-replay"):
         recs = rp.run(jobs, chunk=2)
     # simulation after every intermediate step needs an unmutated copy: replay the prefixes
@@ -565,7 +597,8 @@ def _family(res, tier, famname, rp, F, R, sd):
         r = recs[("long", i)]
         upto = (r["raised"]["step"] - 1) if r["raised"] else len(r["steps"]) - 1
         for k in range(1, upto + 1):
-            pjobs.append(dict(id=("prefix", i, k), fam=famname, init=r["init"], steps=r["steps"][:k], check="last", sim=True))
+            pjobs.append(dict(id=("prefix", i, k), fam=famname, init=r["init"], steps=r["steps"][:k], check="last",
+                              sim=True, pre=r["pre"]))
     with ph("random-replay"):
         precs = rp.run(pjobs, chunk=8)
     traces, order = [], []
@@ -587,7 +620,7 @@ def _family(res, tier, famname, rp, F, R, sd):
         order.append(("long", i))
         res.distinct(("r", famname, i))
     with ph("random-validate"):
-        vs = validate(res, fam, model, rp.table, traces, batch=4)
+        vs = validate(res, fam, model, rp.table, traces, batch=(len(traces) + 1) // 2)
     for key, t, v in zip(order, traces, vs):
         r = recs[key]
         err, pos, cl = v
@@ -633,9 +666,10 @@ def _intern_obs(table, o):
 # canaries
 # --------------------------------------------------------------------------------------
 
-def _canaries(res, rp, R):
-    ncan = 0
-    for famname, (model, ftr) in rp.fresh_traces.items():
+def _canary_traces(rp, famname, R):
+    """(traces, expectations): expectation = a clause that must be reported, or None (any rejection)"""
+    if True:
+        model, ftr = rp.fresh_traces[famname]
         fam = J.family(famname)
         # (a) corrupted copies of accepted observations must be rejected by TLC with the right clause
         can, expect = [], []
@@ -678,29 +712,64 @@ def _canaries(res, rp, R):
             o2["nets"] = _intern_part(rp.table, nets)
             can.append({"init": t["init"], "ev": [{"k": "Observe", "pos": "", "cls": "", "obs": o2}]})
             expect.append(("stale", "nets"))
-        vs = validate(res, fam, model, rp.table, can)
-        for t, exp, (err, pos, cl) in zip(can, expect, vs):
-            if err == "ok" or exp not in cl:
-                raise MachineryError("canary observation accepted by ReplaceTrace (%s expected %s, got %s %s)"
-                                     % (famname, exp, err, sorted(cl)))
-            ncan += 1
         # (b) a history replayed with a different class than recorded must be rejected
-        base = BASE[famname]
-        other = [c for c in fam.palette if c != base and c not in fam.placeholders][0]
-        pos = fam.positions[-1]
-        o = _intern_obs(rp.table, _reobserve(fam, {p: base for p in fam.positions}, [("Replace", pos, other)]))
-        lie = [{"init": {p: base for p in fam.positions}, "ev": [{"k": "Replace", "pos": pos, "cls": base, "obs": o}]}]
-        (err, _, cl), = validate(res, fam, model, rp.table, lie)
-        if err == "ok":
-            raise MachineryError("canary: a history recorded with the wrong class was accepted (%s)" % famname)
-        ncan += 1
+        g0 = fam.uniform()
+        pos = fam.leaves[0]
+        base = g0[pos]
+        other = [c for c in fam.palof[pos] if c != base and c not in fam.placeholders][0]
+        o = _intern_obs(rp.table, _reobserve(fam, g0, [("Replace", pos, other)]))
+        can.append({"init": g0, "ev": [{"k": "Replace", "pos": pos, "cls": base, "obs": o}]})
+        expect.append(None)
+        # (b') replace_component on a hosting position re-uses the constructor arguments of the removed
+        # object: a trace claiming that the nested position keeps its current class must be rejected
+        if fam.hosts:
+            hp = fam.hosts[0]
+            q = fam.below[hp][0]
+            c2 = [c for c in fam.palof[q] if c != g0[q] and c not in fam.placeholders][0]
+            hc = fam.palof[hp][-1]
+            good = [("Replace", q, c2), ("Replace", hp, hc)]
+            if fam.final_cfg(g0, good)[q] != g0[q]:
+                raise MachineryError("canary: Family.step does not fall back to the constructor argument")
+            wrong = dict(fam.final_cfg(g0, good))
+            wrong[q] = c2                                     # the design a naive reading would expect
+            P, _ = J.project(fam.build(wrong))
+            o = _intern_obs(rp.table, J.observation(fam, P))
+            can.append({"init": g0, "ev": [{"k": "Replace", "pos": q, "cls": c2, "obs": None},
+                                           {"k": "Replace", "pos": hp, "cls": hc, "obs": o}]})
+            expect.append(None)
+        return can, expect
+
+
+def _canaries(res, rp, R):
+    ncan = 0
+    prepared = {f: _canary_traces(rp, f, R) for f in rp.fresh_traces}
+
+    def val(famname):
+        can, expect = prepared[famname]
+        model, _ = rp.fresh_traces[famname]
+        return famname, validate(res, J.family(famname), model, rp.table, can, batch=len(can))
+    with ThreadPoolExecutor(max_workers=len(prepared)) as ex:
+        verdicts = dict(ex.map(val, list(prepared)))
+    for famname, (model, ftr) in rp.fresh_traces.items():
+        fam = J.family(famname)
+        can, expect = prepared[famname]
+        for t, exp, (err, pos, cl) in zip(can, expect, verdicts[famname]):
+            if err == "ok" or (exp is not None and exp not in cl):
+                raise MachineryError("canary trace accepted by ReplaceTrace (%s: %s; expected %s, got %s %s)"
+                                     % (famname, [(e["k"], e["pos"], e["cls"]) for e in t["ev"]], exp, err, sorted(cl)))
+            ncan += 1
+        g0 = fam.uniform()
+        pos = fam.leaves[0]
+        base = g0[pos]
+        other = [c for c in fam.palof[pos] if c != base and c not in fam.placeholders][0]
         # (c) harness-side comparison: a stale name planted in a copy of a real projection
-        g = {p: base for p in fam.positions}
+        g = dict(g0)
+        p0 = fam.leaves[0]
         P, kinds = J.project(fam.build(g))
         Q = copy.deepcopy(P)
-        Q["sigs"].append("<deleted>s.%s.zz" % fam.positions[0])
-        Q["wru"].append(["<stale>s.%s::up_b" % fam.positions[0], "#lt", "<deleted>s.%s.w" % fam.positions[0]])
-        Q["named"].remove("s." + fam.positions[0])
+        Q["sigs"].append("<deleted>s.%s.zz" % p0)
+        Q["wru"].append(["<stale>s.%s::up_b" % p0, "#lt", "<deleted>s.%s.w" % p0])
+        Q["named"].remove("s." + p0)
         st, mi = J.diff(Q, P)
         keys = {J.finding_key(c, f, k) for (c, f, k, _) in J.classify(st, mi, J.duplicates(Q), kinds, kinds)}
         want = {"stale-signal-name", "stale-WR-U-constraint", "missing-named-object:Component"}
@@ -709,13 +778,69 @@ def _canaries(res, rp, R):
         ncan += 1
         # (d) sweep: a removed object planted in a _dsl container must be found
         top = fam.build(g)
-        removed = J.apply_step(fam, top, "Replace", fam.positions[0], base)
+        removed = J.apply_step(fam, top, "Replace", p0, g[p0], g)
         victim = next(o for (o, d) in removed if d.startswith("InPort") or d.startswith("CalleePort"))
         top._dsl.all_U_U_constraints.add((victim, victim))
         hit = [p for (p, d) in J.sweep(top, removed) if "all_U_U_constraints" in p]
         if not hit:
             raise MachineryError("canary: sweep does not find a removed object planted in top._dsl.all_U_U_constraints")
         ncan += 1
+        # (e) simulation comparison: the design for another class at one position must be told apart
+        # from the design built from scratch under every pass group, and a register of the harness that
+        # does not commit (its writer block silently dropped from the schedule) must be seen in the
+        # per-signal trace
+        inputs = rp.inputs[famname]
+        F = J.fresh(fam, g0, inputs)
+        g1 = dict(g0)
+        g1[pos] = other
+        for pg in fam.pass_groups:
+            ref = J.fresh_sim(fam, g0, inputs, pg)
+            if ref[0] != "ok":
+                if pg == "DefaultPassGroup":
+                    raise MachineryError("canary: the base design of %s does not simulate: %s" % (famname, ref))
+                continue
+            try:
+                got = ("ok", J.simulate(fam, fam.build(g1), inputs, pg, F["sigs"], F["pure"]))
+            except Exception as e:          # noqa: BLE001
+                got = ("raises", {"exc": type(e).__name__})
+            if J.compare_sim(fam, ref, got, F["sigs"], pg)["kind"] == "same":
+                raise MachineryError("canary: %s under %s cannot tell %s from %s at %s" % (famname, pg, other, base, pos))
+            ncan += 1
+        # registers commit, observably: in every uniform configuration every signal written by an
+        # update_ff block (public metadata) takes at least two values in the per-signal trace of the
+        # design built from scratch, and a trace in which it is stuck is told apart
+        for c in fam.classes:
+            gu = fam.uniform(c, c)
+            if any(gu[p] in fam.placeholders for p in gu):
+                continue
+            top = fam.build(gu)
+            _, wr, _ = top.get_all_upblk_metadata()
+            regs = sorted({(repr(x), repr(top.get_update_block_host_component(b)))
+                           for b in top.get_all_update_ff() for x in wr[b]})
+            Fu = J.fresh(fam, gu, inputs)
+            ref = J.fresh_sim(fam, gu, inputs)
+            if ref[0] != "ok":
+                raise MachineryError("canary: uniform design %s of %s does not simulate: %s" % (c, famname, ref))
+            rows = [r for r in ref[1] if len(r) > len(Fu["sigs"])]
+            nout = len(rows[0]) - len(Fu["sigs"])
+            for rg, host in regs:
+                j = nout + Fu["sigs"].index(rg)
+                if len({r[j] for r in rows}) < 2:
+                    # a register inside a palette class may be stuck by construction (its enable is tied
+                    # to its own output); a register that an update_ff block of the harness / of a hosting
+                    # class writes INTO the component below it is what replace_component must preserve
+                    if fam.split_name(rg)[0] == fam.split_name(host)[0]:
+                        res.count("static_internal_registers")
+                        continue
+                    raise MachineryError("canary: register %s of the uniform %s design of %s never changes in the "
+                                         "simulation (a register that does not commit would not be seen)" % (rg, c, famname))
+                stuck = [list(r) for r in ref[1]]
+                for r in stuck:
+                    if len(r) > len(Fu["sigs"]):
+                        r[j] = rows[0][j]
+                if J.compare_sim(fam, ref, ("ok", stuck), Fu["sigs"], "DefaultPassGroup")["kind"] != "differs":
+                    raise MachineryError("canary: a stuck register %s is not told apart" % rg)
+                ncan += 1
     res.note("canaries_rejected", ncan)
 
 
@@ -741,7 +866,7 @@ def replay(obj):
     if "history" not in d:
         print(json.dumps(obj, indent=1))
         return 0
-    inputs = {"RTL": J.rtl_inputs(NCYC, rng("c15-inputs")), "CL": [0] * NCYC}
+    inputs = _inputs()
     rec = J.replay_history(d["family"], d["init"], [tuple(s) for s in d["history"]], inputs[d["family"]], check="all")
     for c in rec["checks"]:
         c.pop("obs", None)
